@@ -55,6 +55,8 @@ SORTS = {
 
 # station ids are registered in this (non-lexicographic) pool order after a permutation
 STATION_POOL = ["st-q", "st-b", "st-z", "st-a", "st-m", "st-c"]
+# constraint names are free text: brackets, wildcards, blanks
+ODD_NAMES = ["Panel [A]", "Transformer [480V]", "feeder*", "line?", "Primary A", "[x]"]
 BIG_POOL = ["PS-%d" % i for i in (10, 9, 2, 1, 11, 3, 20, 4, 12, 5, 100, 6, 7, 8)]
 
 # --------------------------------------------------------------------------- build layer
@@ -184,6 +186,33 @@ def build_events(spec, evs, shift=0, order=None):
         for e in events:
             q.add_event(e)
     return q
+
+
+def json_roundtrip(obj, cls, via="string"):
+    """obj -> JSON -> cls.from_json(...) through one of the three documented channels: the
+    returned string, a file path, an open text buffer.  Returns (loaded object, JSON text)."""
+    import io
+    import os
+    import tempfile
+
+    if via == "path":
+        fd, path = tempfile.mkstemp(suffix=".json", prefix="acnverif-")
+        os.close(fd)
+        try:
+            obj.to_json(path)
+            with open(path) as f:
+                text = f.read()
+            loaded = cls.from_json(path)
+        finally:
+            os.unlink(path)
+        return loaded, text
+    if via == "buffer":
+        buf = io.StringIO()
+        obj.to_json(buf)
+        text = buf.getvalue()
+        return cls.from_json(io.StringIO(text)), text
+    text = obj.to_json()
+    return cls.from_json(text), text
 
 
 class NonTermination(Exception):
@@ -545,6 +574,7 @@ def station_specs(draw, sid, kinds=("cont", "cont0", "deadband", "finite"), fini
                     [6, 12.5, 20],
                     [32],
                     [0, 16],
+                    [0.0] + [6.0 + 0.25 * k for k in range(105)],  # a finely graded station: 106 levels
                 ]
             )
         )
@@ -624,7 +654,10 @@ def constraint_lists(draw, stations, max_constraints=4, limits=(20.0, 50, 100.0,
     for j in range(draw(st.integers(0, max_constraints))):
         members = draw(st.lists(st.sampled_from(ids), min_size=1, max_size=len(ids), unique=True))
         coeffs = {i: draw(st.sampled_from([1.0, 1, 1, -1.0, 0.5, 0.25, 2, 1.5])) for i in members}
-        out.append({"name": "con-%d" % j, "limit": draw(st.sampled_from(list(limits))), "coeffs": coeffs})
+        # one in ten limits is a placeholder far above anything the site can draw (e.g. a service
+        # entrance entered as 1e9 A): the others must be enforced all the same
+        lim = 1e9 if draw(st.integers(0, 9)) == 0 else draw(st.sampled_from(list(limits)))
+        out.append({"name": draw(st.sampled_from(ODD_NAMES)) + "-%d" % j if draw(st.integers(0, 3)) == 0 else "con-%d" % j, "limit": lim, "coeffs": coeffs})
     return out
 
 
